@@ -54,6 +54,15 @@ class C01:
             sc = G.draw_scatterer(rng, sk, dmeta['extent'], dmeta['origin'],
                                   big=big, grid=dmeta if dmeta['kind'] ==
                                   'grid' else None)
+            if tk in ('MieLens', 'AberratedMieLens') and \
+                    sc[0] == 'sphere' and rng.random() < 0.2:
+                # far from focus: tens of micrometres of defocus ...
+                sc[1]['center'][2] = rfloat(rng, 35, 110, 3)
+            elif tk in ('MieLens', 'AberratedMieLens') and \
+                    sc[0] == 'sphere' and rng.random() < 0.15:
+                # ... or far off to the side of the field of view
+                sc[1]['center'][0] = round(
+                    sc[1]['center'][0] + rfloat(rng, 35, 90, 3), 3)
             if rng.random() < 0.05:                 # invalid scatterer
                 sc = ('sphere', {'n': 1.5, 'r': 0.5, 'center': None},
                       {'kind': 'sphere'})
